@@ -104,6 +104,9 @@ def run(pid, tier, seed, njobs=None, only_compute=False):
     import stepconf
     sc = stepconf.leg(pid, tier, seed, verdict, n=(120 if tier == "quick" else 1200))
     cov["step_conformance"] = sc
+    # the other direction: behaviours of Flurry.tla generated by TLC stepped through the crate
+    import specreplay
+    cov["spec_to_code_replay"] = specreplay.leg(pid, tier, seed, verdict)
     cov["states"] = cov.get("states", 0) + sc["tlc_states"]
     cov["transitions"] = cov.get("transitions", 0) + sc["tlc_states"]
     cov["traces_validated_against_impl"] = cov.get("traces_validated_against_impl", 0) + sc["accepted"]
